@@ -369,6 +369,12 @@ func (w *World) AbstractServerOut(hdr string, key, host uint64, items []Item) ([
 // AbstractClientOut describes a header a real client (key ckey, hostname atom
 // host) emitted after having seen `seen`.
 func (w *World) AbstractClientOut(hdr string, ckey, host uint64, seen []Item) ([]OutTerm, bool) {
+	return w.AbstractClientOutHosts(hdr, ckey, []uint64{host}, seen)
+}
+
+// AbstractClientOutHosts: as AbstractClientOut, for a client whose signature may be
+// over any of several hostname atoms (the request's Host, its URL's host, the empty name).
+func (w *World) AbstractClientOutHosts(hdr string, ckey uint64, hosts []uint64, seen []Item) ([]OutTerm, bool) {
 	ps, ok := SplitEmitted(hdr)
 	if !ok {
 		return nil, false
@@ -397,7 +403,9 @@ func (w *World) AbstractClientOut(hdr string, ckey, host uint64, seen []Item) ([
 			var cs []SigCand
 			for _, c := range chals {
 				for k := range w.Keys {
-					cs = append(cs, SigCand{Key: ckey, Msg: MsgClient(c, Pub(uint64(k)), Atom(host))})
+					for _, host := range hosts {
+						cs = append(cs, SigCand{Key: ckey, Msg: MsgClient(c, Pub(uint64(k)), Atom(host))})
+					}
 				}
 			}
 			t = w.AbstractSig(b, cs)
